@@ -418,7 +418,14 @@ func (e *Exec) baseStore(a *Addr, v string, h *Heap) *Heap {
 		ev := e.u().elemVar(so)
 		m := h.get(ev)
 		base := app("s_base", a.Slice)
-		return h.set(ev, app("store", m, base, app("store", app("select", m, base), app("+", app("s_off", a.Slice), a.Idx), v)))
+		h2 := h.set(ev, app("store", m, base, app("store", app("select", m, base), app("+", app("s_off", a.Slice), a.Idx), v)))
+		if !e.noName {
+			// accessor-level frame of the element store (see the remark in Heap.havoc)
+			at := "at_" + sortTag(so)
+			m2 := h2.get(ev)
+			e.vc.assume(fmt.Sprintf("(forall ((o Slice) (k Int)) (! (=> (or (not (= (s_base o) %s)) (not (= (+ (s_off o) k) (+ (s_off %s) %s)))) (= (%s %s o k) (%s %s o k))) :pattern ((%s %s o k))))", base, a.Slice, a.Idx, at, m2, at, m, at, m2))
+		}
+		return h2
 	default:
 		so := e.u().sortOf(a.Elem)
 		cv := e.u().cellVar(so)
@@ -928,7 +935,8 @@ func (e *Exec) instr(b *ssa.BasicBlock, ins ssa.Instruction, reach string, h *He
 				e.privRefs = append(e.privRefs, r)
 			}
 			h2 = e.zeroStructAt(r, et, h2)
-			vc.def(eq(app("dyntype", r), fmt.Sprint(u.typeID(x.Type()))))
+			// a fact about this execution path only (two branches may allocate at the same clock value)
+			vc.assume(implies(reach, eq(app("dyntype", r), fmt.Sprint(u.typeID(x.Type())))))
 			e.vals[x] = mk(r, SInt, x.Type())
 			return h2
 		case *types.Array:
@@ -1045,7 +1053,7 @@ func (e *Exec) instr(b *ssa.BasicBlock, ins ssa.Instruction, reach string, h *He
 		r, h2 := e.allocRef(h, x.Name()+"_box")
 		bv := u.boxVar(v.Sort)
 		h2 = h2.set(bv, app("store", h2.get(bv), r, v.S))
-		vc.def(eq(app("dyntype", r), fmt.Sprint(u.typeID(xt))))
+		vc.assume(implies(reach, eq(app("dyntype", r), fmt.Sprint(u.typeID(xt)))))
 		e.vals[x] = mk(r, SInt, x.Type())
 		return h2
 
